@@ -30,7 +30,7 @@ from typing import Dict, List, Set
 from engine.src import FunctionInfo, own_nodes, own_nodes_incl_lambda, src_of, AnalysisError
 from engine.util import const_value
 from .common import resolve_call
-from .sem import guarded_values, defs_texts, expander, ctext, want, xt, calls, paths, paths_deep, block_paths, stmt_of, complement_norm, RAISE
+from .sem import conds_at, guarded_values, defs_texts, expander, ctext, want, xt, calls, paths, paths_deep, block_paths, stmt_of, complement_norm, RAISE
 
 RULES = {
     "C16.a": "debug wrappers are transparent and self-consistent in their keys; saved originals and the lambdas calling them agree",
@@ -155,6 +155,13 @@ def check_b(ck, repo):
     own = [y for y in ys if src_of(y.value.value) in ("(coor, pipe, vs)", "(coor, PassThrough(), vs)")]
     recs = [c for c in own_nodes_incl_lambda(en.node) if isinstance(c, ast.Call) and src_of(c.func) == "enumerate_pipeline_models"]
     ck.verdict(len(own) == 2, "C16.b", en, f"{[src_of(y) for y in own]}", "the model itself is yielded (once) with its coordinate", f"expected the model to be yielded once per branch, found {[src_of(y) for y in own]}")
+    # every call yields its model: the only facts on the way to the own yields are the coordinate
+    # default and the 'passthrough' test, and nothing returns before them
+    for y_ in own:
+        cs_ = [(t_, p_) for t_, p_ in conds_at(repo, en, y_) if "coor" not in t_ and "'passthrough'" not in t_]
+        ck.verdict(not cs_, "C16.b", en, f"guards of {src_of(y_)[:40]}", "the model is yielded whatever it is (no further condition)", f"the model itself is yielded only when {cs_[:2]}: some estimators of the pipeline (e.g. a second 'passthrough', a shared instance) are not enumerated, so pipeline2str lacks their line")
+    early_ = [r_ for r_ in own_nodes(en.node) if isinstance(r_, ast.Return) and own and r_.lineno < min(y_.lineno for y_ in own)]
+    ck.verdict(not early_, "C16.b", en, early_[0] if early_ else "no return before the model is yielded", "nothing leaves the generator before the model itself was yielded", "the generator returns before yielding the model itself: that estimator (and its children) is missing from the enumeration")
     first_own = min((y.lineno for y in own if "pipe, vs" in src_of(y)), default=None)
     ck.verdict(first_own is not None and all(c.lineno > first_own for c in recs), "C16.b", en, "yield coor, pipe, vs before any recursive call", "parents are yielded before their children", "a recursive call precedes the yield of the container itself: children come before parents")
     # every recursive call: coor + (<enumerate var>,) ; enclosing loop enumerates the container
@@ -217,53 +224,97 @@ def check_b(ck, repo):
     ck.verdict({k for k in ke if k in KINDS} == {k for k in kp if k in KINDS} == set(KINDS), "C16.b", en, f"container kinds {sorted(k for k in ke if k in KINDS)} / {sorted(k for k in kp if k in KINDS)}", "both functions handle Pipeline, ColumnTransformer, FeatureUnion", "the two functions do not handle the same container kinds")
     # pipeline2str
     ps = repo.func(VZ, "pipeline2str")
-    loops = [l for l in own_nodes(ps.node) if isinstance(l, ast.For)]
-    ok = len(loops) == 1 and src_of(loops[0].iter) == "enumerate_pipeline_models(pipe)" and src_of(loops[0].target) == "(coor, model, vs)"
-    apps = [s for s in ast.walk(loops[0]) if isinstance(s, ast.Expr) and src_of(s.value).startswith("rows.append(")] if loops else []
-    in_branch = [s for s in apps if not any(s is x for x in loops[0].body)]
-    ck.verdict(ok and len(apps) == 1 and not in_branch, "C16.b", ps, "for coor, model, vs in enumerate_pipeline_models(pipe): ... rows.append(msg)", "exactly one row per yielded model", "pipeline2str does not append exactly one row per yielded model")
-    # each row is one physical line: indentation, class name, optional "(columns)"
-    if len(apps) == 1 and isinstance(apps[0].value, ast.Call) and len(apps[0].value.args) == 1:
-        from .sem import guarded_values
+    _pipeline2str(ck, repo, ps)
 
+
+def _row_pieces(y: ast.AST, item: str):
+    """(why not, multi-line?, has indentation, has class name) of one row expression"""
+    why, multi, ind, cls = None, False, False, False
+    if isinstance(y, ast.IfExp):
+        a, b = _row_pieces(y.body, item), _row_pieces(y.orelse, item)
+        return (a[0] or b[0], a[1] or b[1], a[2] and b[2], a[3] and b[3])
+    if isinstance(y, ast.Constant) and isinstance(y.value, str):
+        if "\n" in y.value or "\r" in y.value:
+            return (f"the literal {y.value!r} breaks the line", True, False, False)
+        return (None, False, False, False)
+    if isinstance(y, ast.JoinedStr):
+        for part in y.values:
+            if isinstance(part, ast.Constant):
+                if "\n" in str(part.value) or "\r" in str(part.value):
+                    why, multi = f"the literal {part.value!r} breaks the line", True
+            elif isinstance(part, ast.FormattedValue):
+                e_ = part.value
+                t = ast.unparse(e_)
+                if t.startswith("' ' * ") or t.endswith(" * ' '"):
+                    ind = ind or (ctext(t) in (ctext(f"' ' * indent * (len({item}[0]) - 1)"), ctext(f"' ' * (indent * (len({item}[0]) - 1))"), ctext("' ' * indent * (len(coor) - 1)")))
+                    continue
+                if t.endswith(".__name__"):
+                    cls = True
+                    continue
+                if isinstance(e_, ast.Call) and isinstance(e_.func, ast.Attribute) and e_.func.attr == "join" and isinstance(e_.func.value, ast.Constant) and isinstance(e_.func.value.value, str) and "\n" not in e_.func.value.value:
+                    continue
+                if isinstance(e_, (ast.IfExp, ast.JoinedStr, ast.Constant)):
+                    sub = _row_pieces(e_, item)
+                    why, multi = why or sub[0], multi or sub[1]
+                    continue
+                why = why or f"the piece {t[:60]} is not the indentation, a class name or the joined column list"
+        return (why, multi, ind, cls)
+    t = ast.unparse(y)
+    f_ = ast.unparse(y.func) if isinstance(y, ast.Call) else ""
+    if f_ in ("textwrap.fill", "fill", "textwrap.indent", "pprint.pformat", "pformat") or (f_.endswith(".join") and isinstance(y.func.value, ast.Constant) and "\n" in str(y.func.value.value)):
+        return (f"{f_}(...) cuts or joins the text with line breaks", True, False, False)
+    return (f"the row {t[:70]} is not an f-string of indentation, class name and columns", False, False, False)
+
+
+def _pipeline2str(ck, repo, ps):
+    from .sem import guarded_values, elementwise
+
+    rets = [x for x in own_nodes(ps.node) if isinstance(x, ast.Return) and x.value is not None]
+    if len(rets) != 1 or not (isinstance(rets[0].value, ast.Call) and isinstance(rets[0].value.func, ast.Attribute) and rets[0].value.func.attr == "join" and isinstance(rets[0].value.func.value, ast.Constant) and rets[0].value.func.value.value == "\n" and len(rets[0].value.args) == 1):
+        ck.violated("C16.b", ps, rets[0] if rets else "return", "rows are not joined one per line")
+        return
+    ck.holds("C16.b", ps, f"return {src_of(rets[0].value)[:50]}", "one line per row")
+    arg = rets[0].value.args[0]
+    loops = [l for l in own_nodes(ps.node) if isinstance(l, ast.For)]
+    rows = []  # (facts, row expression in terms of the loop item)
+    item = None
+    if len(loops) == 1 and isinstance(arg, ast.Name):
+        L = loops[0]
+        apps = [s_ for s_ in ast.walk(L) if isinstance(s_, ast.Expr) and isinstance(s_.value, ast.Call) and src_of(s_.value.func) == f"{arg.id}.append"]
+        in_branch = [s_ for s_ in apps if not any(s_ is x for x in L.body)]
+        ok = src_of(L.iter) == "enumerate_pipeline_models(pipe)" and isinstance(L.target, ast.Tuple) and len(L.target.elts) == 3
+        ck.verdict(ok and len(apps) == 1 and not in_branch, "C16.b", ps, f"for .. in enumerate_pipeline_models(pipe): ... {arg.id}.append(..)", "exactly one row per yielded model", "pipeline2str does not append exactly one row per yielded model")
+        if not (ok and len(apps) == 1 and not in_branch):
+            return
         item = ctext('__it__(enumerate_pipeline_models(pipe), "(\'elem\',)", 0)')
         for c_, v_, _st in guarded_values(repo, ps, apps[0].value.args[0], apps[0]):
-            try:
-                y = ast.parse(_nt(v_), mode="eval").body
-            except SyntaxError:
-                y = v_
-            why, multi = None, False
-            if isinstance(y, ast.JoinedStr):
-                for part in y.values:
-                    if isinstance(part, ast.Constant):
-                        if "\n" in str(part.value) or "\r" in str(part.value):
-                            why, multi = f"the literal {part.value!r} breaks the line", True
-                    elif isinstance(part, ast.FormattedValue):
-                        t = ast.unparse(part.value)
-                        e_ = part.value
-                        if t.startswith("' ' * ") or t.endswith(" * ' '") or t.endswith(".__name__"):
-                            continue
-                        if isinstance(e_, ast.Call) and isinstance(e_.func, ast.Attribute) and e_.func.attr == "join" and isinstance(e_.func.value, ast.Constant) and isinstance(e_.func.value.value, str) and "\n" not in e_.func.value.value:
-                            continue
-                        why = f"the piece {t[:60]} is not the indentation, a class name or the joined column list"
-            else:
-                t = ast.unparse(y)
-                f_ = ast.unparse(y.func) if isinstance(y, ast.Call) else ""
-                if f_ in ("textwrap.fill", "fill", "textwrap.indent", "pprint.pformat", "pformat") or f_.endswith((".join",)) and isinstance(y.func.value, ast.Constant) and "\n" in str(y.func.value.value):
-                    why, multi = f"{f_}(...) cuts or joins the text with line breaks", True
-                else:
-                    why = f"the row {t[:70]} is not an f-string of indentation, class name and columns"
-            facts = sorted(c_)
-            if why is None:
-                ck.holds("C16.b", ps, f"row when {[(a[-12:], b) for a, b in facts]}", "the row is indentation + class name (+ joined columns): one physical line per model")
-            elif multi:
-                ck.violated("C16.b", ps, apps[0], f"{why}: a model can produce several lines, so the lines of pipeline2str and the models yielded by enumerate_pipeline_models no longer correspond one to one")
-            else:
-                ck.unknown("C16.b", ps, apps[0], why)
-    sp = [s for s in ast.walk(ps.node) if isinstance(s, ast.Assign) and src_of(s.targets[0]) == "spaces"]
-    ck.verdict(len(sp) == 1 and src_of(sp[0].value) == "' ' * indent * (len(coor) - 1)", "C16.b", ps, sp[0] if sp else "spaces = ...", "indentation = indent * (depth - 1)", "indentation is not indent * (len(coor) - 1)")
-    r = [src_of(x.value) for x in own_nodes(ps.node) if isinstance(x, ast.Return)]
-    ck.verdict(r == ["'\\n'.join(rows)"], "C16.b", ps, f"return {r}", "one line per row", "rows are not joined one per line")
+            rows.append((sorted(c_), v_))
+        site = apps[0]
+    else:
+        r = elementwise(repo, ps, arg, rets[0])
+        if r is None or r[0] != ["enumerate_pipeline_models(pipe)"]:
+            ck.unknown("C16.b", ps, rets[0], f"the rows are not read as one element per item of enumerate_pipeline_models(pipe) ({r[0] if r else 'not element-wise'})")
+            return
+        ck.holds("C16.b", ps, "one row per item of enumerate_pipeline_models(pipe)", "exactly one row per yielded model (element-wise construction, no filter)")
+        item = "__e0"
+        from .sem import element_alternatives
+
+        for facts_, el_ in element_alternatives(repo, ps, r[1]):
+            rows.append(([(str(f_), True) for f_ in facts_], el_))
+        site = rets[0]
+    for facts, v_ in rows:
+        try:
+            y = ast.parse(_nt(v_), mode="eval").body
+        except SyntaxError:
+            y = v_
+        why, multi, ind, cls = _row_pieces(y, item)
+        if why is None:
+            ck.holds("C16.b", ps, f"row when {[(a[-12:], b) for a, b in facts]}", "the row is indentation + class name (+ joined columns): one physical line per model")
+            ck.verdict(ind and cls, "C16.b", ps, f"row pieces when {[(a[-12:], b) for a, b in facts]}", "indentation = indent * (depth - 1), then the class name", "the row does not start with ' ' * indent * (len(coordinate) - 1) followed by the class name: the indentation no longer tells the nesting depth")
+        elif multi:
+            ck.violated("C16.b", ps, site, f"{why}: a model can produce several lines, so the lines of pipeline2str and the models yielded by enumerate_pipeline_models no longer correspond one to one")
+        else:
+            ck.unknown("C16.b", ps, site, why)
 
 
 def _nt(x: ast.AST) -> str:
@@ -374,7 +425,40 @@ def check_c(ck, repo):
                 okd += 1
             else:
                 bad.append(t)
-    ck.verdict(okd == 2 and not bad, "C16.c", pd, f"input table: {okd} numbering loops {bad}", "input columns are numbered by their position", "input ports are not numbered by column position")
+    if okd == 0 and not bad:
+        # the table built in one expression: OrderedDict((name, 'sch0:f<k>') for k, name in enumerate(NAMES)),
+        # NAMES being the frame's columns, X0..X<ncol-1> for an array, nothing for a list
+        comp = None
+        tnames = {"data"}
+        for s_ in own_nodes(pd.node):
+            if isinstance(s_, ast.Assign) and len(s_.targets) == 1 and src_of(s_.targets[0]) == "data" and isinstance(s_.value, ast.Name):
+                tnames.add(s_.value.id)  # data = <local holding the table>
+        for s_ in own_nodes(pd.node):
+            if isinstance(s_, ast.Assign) and len(s_.targets) == 1 and src_of(s_.targets[0]) in tnames and isinstance(s_.value, ast.Call) and src_of(s_.value.func).split(".")[-1] in ("OrderedDict", "dict") and len(s_.value.args) == 1 and isinstance(s_.value.args[0], (ast.GeneratorExp, ast.ListComp)):
+                comp = (s_, s_.value.args[0])
+            if isinstance(s_, ast.Assign) and len(s_.targets) == 1 and src_of(s_.targets[0]) in tnames and isinstance(s_.value, ast.DictComp):
+                comp = (s_, s_.value)
+        if comp is None:
+            ck.unknown("C16.c", pd, "input table", "neither numbering loops nor a one-expression table of the input columns were found")
+        else:
+            s_, g_ = comp
+            gen = g_.generators[0] if len(g_.generators) == 1 and not g_.generators[0].ifs else None
+            okg = False
+            if gen is not None and isinstance(gen.iter, ast.Call) and src_of(gen.iter.func) == "enumerate" and len(gen.iter.args) == 1 and isinstance(gen.target, ast.Tuple) and len(gen.target.elts) == 2:
+                kv, cv = [src_of(x) for x in gen.target.elts]
+                if isinstance(g_, ast.DictComp):
+                    key_t, val_t = src_of(g_.key), _nt(g_.value)
+                else:
+                    key_t, val_t = (src_of(g_.elt.elts[0]), _nt(g_.elt.elts[1])) if isinstance(g_.elt, ast.Tuple) and len(g_.elt.elts) == 2 else (None, None)
+                okg = key_t == cv and val_t == f"f'sch0:f{{{kv}}}'"
+                names_alts = sorted({_nt(v_) for _c, v_, _s in guarded_values(repo, pd, gen.iter.args[0], s_)})
+                allowed = {"raw_data.columns", "data.columns", "[]", "[f'X{_c0}' for _c0 in range(raw_data.shape[1])]", "[f'X{_c0}' for _c0 in range(data.shape[1])]", "[f'X{_c0}' for _c0 in range(0, raw_data.shape[1])]"}
+                extra = [n_ for n_ in names_alts if n_ not in allowed]
+                ck.verdict(okg and not extra and len(names_alts) >= 2, "C16.c", pd, f"input table: (name, sch0:f<k>) for k, name in enumerate({names_alts})", "input columns are numbered by their position: every column of a frame, X0..X<ncol-1> of an array", f"the input table is built from {extra or names_alts}: not every input column gets the port of its position (an array has raw_data.shape[1] columns, named X0..)")
+            else:
+                ck.unknown("C16.c", pd, s_, "the one-expression input table is not (name, port) for position, name in enumerate(names)")
+    else:
+        ck.verdict(okd == 2 and not bad, "C16.c", pd, f"input table: {okd} numbering loops {bad}", "input columns are numbered by their position", "input ports are not numbered by column position")
     info_ok = any(re.match(r"^\w+ = \[(dict\(schema_after=data\)|\{'schema_after': data\})\]$", t) for t in st) and any(re.match(r"^(\w+)\.extend\(_pipeline_info\(pipe, data, context=(dict\(n=0, names=names\)|\{'n': 0, 'names': names\})\)\)$", t) for t in st)
     ck.verdict(info_ok and src_of(L.iter.args[0]) in [t.split(" = ")[0] for t in st if "schema_after=data" in t or "'schema_after': data" in t], "C16.c", pd, "info = [schema] + _pipeline_info(...)", "line 0 is the input schema, the steps follow in pipeline order", "the list of lines is not [input schema] + steps")
 
